@@ -4,6 +4,7 @@ import Model.C05.VarInt
 import Model.C05.Codec
 import Model.C05.Tx
 import Model.C05.PsbtMap
+import Model.C05.PsbtTyped
 import Model.C05.Misc
 import Model.C05.P2p
 import Generated.VarInt
@@ -104,6 +105,8 @@ def handle : List String → String
       | "keyorigin.parse" => runKeyOrigin mode b
       | "xkey.parse" => runCodec xkey rXKey none' mode b
       | "psbtmap.parse" => Psbt.runMap mode b
+      | "psbtin.reser0" => Psbt.runReserIn 0 b
+      | "psbtin.reser2" => Psbt.runReserIn 2 b
       | "psbtmap.norm" => Psbt.runNorm mode b
       | _ => "bad-op"
   | _ => "bad-op"
